@@ -57,7 +57,7 @@ def run(facts, rep, tier):
         calls_ = [n_ for n_, _ in walk(ts_[0]["body"]) if n_.get("k") in ("call", "mcall") and n_.get("fn") == outs_[0]["fn"]]
         if rep.floor("C19.T1", "call of the item renderer in to_stream", len(calls_), 1):
             rv = cnt_.r(calls_[0]["recv"]) if calls_[0].get("k") == "mcall" else cnt_.r(calls_[0]["args"][0])
-            okr = re.fullmatch(r"elem<self\.id_to_entry\.values\(\)>", rv) is not None
+            okr = re.fullmatch(r"elem<self\.id_to_entry\.values\(\)>|Iterator::next\(IntoIterator::into_iter\(self\.id_to_entry\.values\(\)\)\)~Some(\.0)?", rv) is not None
             rep.ob("C19.T1", "every-entry-rendered", okr, "to_stream renders every entry of id_to_entry" if okr else
                    "the item renderer is applied to `%s`, not to every entry of the type space: a type that other generated code refers to (and that the Type API reports) is not defined in the output" % rv[:140], calls_[0].get("sp"))
     # modules and the error type
